@@ -398,7 +398,112 @@ fn gen_subject(rng: &mut Rng, i: u64, small: bool) -> Result<Subject, String> {
     subject(format!("generated#{i}{}", if layout.canonical { " canonical layout".to_string() } else { format!(" random layout seed={} filler={}", layout.seed, layout.pool_filler) }), bytes, m)
 }
 
+/// A small class for the Miri slice: cf::gen sized down + densify + names / descriptors / strings redrawn from cf::hostile
+/// (NUL, surrogates, long names, class names filling a descriptor), emitted, self-checked and read in full like `gen_subject`.
+fn slice_subject(rng: &mut Rng, i: u64, tiny: bool) -> Result<Subject, String> {
+    let mut cfg = gen::GenCfg { max_insns: 4, max_methods: if tiny { 1 } else { 2 }, max_fields: if tiny { 1 } else { 2 }, ..gen::GenCfg::default() };
+    match i % 4 { 1 => cfg.major = Some(*rng.pick(&[61, 65, 67])), 2 => cfg.major = Some(*rng.pick(&[55, 60, 61])), 3 => cfg.major = Some(52), _ => {} }
+    let mut m = gen::gen_class(rng, &cfg);
+    dense::densify(&mut m, rng, &cfg, if tiny { (1, 8) } else { (1, 5) });
+    // densify grows the member lists to 0..7 each: too much for an interpreter; keep the first few
+    m.fields.truncate(if tiny { 1 } else { 2 }); m.methods.truncate(if tiny { 1 } else { 2 });
+    cf::hostile::hostilise(rng, &mut m, (1, 2), if i % 8 == 7 { 600 } else { 24 });
+    let layout = if i % 2 == 0 { emit::Layout::canonical() } else { emit::Layout::random(rng.next_u64()) };
+    let bytes = emit::emit(&m, &layout).map_err(|e| format!("emit: {}", template(&e)))?;
+    match parse::parse_prefix(&bytes, false) {
+        Ok(p) if p.class == m && p.consumed == bytes.len() => {}
+        other => { eprintln!("HARNESS-ERROR miri slice: parse(emit(M)) != M or length differs (case {i}): {:?}", other.err()); std::process::exit(3); }
+    }
+    subject(format!("miri#{i}"), bytes, m)
+}
+
+/// `c17 --miri-slice <seed> <cases> <max seconds>`: single-threaded, no files. Every case builds one small class with hostile
+/// names and reads it in full (duke::read_class). Case index mod 8:
+///  0: the ordinary per-class evaluation (`evaluate_class`) with the shortest mask plan (all, none, declined Code, declined class):
+///     read_class_multi and ClassFile::accept with the Masked visitors, (), SimpleClassVisitor, Vec<ClassFile> (14 evaluations);
+///  4: two classes concatenated: a masked read at the non-zero offset and one Vec<ClassFile> visitor carried through both reads,
+///     judged as in the streams workload;
+///  others: one mask of the ordinary plan (decline patterns and random masks in rotation): masked read + masked replay, judged and
+///     reported as in `evaluate_class`.
+fn miri_slice(seed: u64, cases: usize, max_s: u64) -> i32 {
+    let mut rep = Report::new();
+    let deadline = std::time::Instant::now() + std::time::Duration::from_secs(max_s);
+    let (mut i, mut classes, mut bytes_in, mut skipped) = (0u64, 0u64, 0usize, 0u64);
+    while (i as usize) < cases && std::time::Instant::now() < deadline {
+        let mut rng = Rng::new(common::rng::case_seed(seed, "C17/miri", i));
+        rep.cur = ("miri".into(), i);
+        if i % 8 == 0 {
+            match slice_subject(&mut rng, i, true) {
+                Err(_) => skipped += 1,
+                Ok(s) => { classes += 1; bytes_in += s.bytes.len(); evaluate_class(&mut rep, &mut rng, &s, i + 1, (0, 0, 0), "miri"); }
+            }
+        } else if i % 8 != 4 {
+            match slice_subject(&mut rng, i, i % 2 == 1) {
+                Err(_) => skipped += 1,
+                Ok(s) => {
+                    classes += 1; bytes_in += s.bytes.len();
+                    let end = s.bytes.len() as u64;
+                    let plan = mask_plan(&mut rng, i, 0, 2, 2);
+                    let k = plan[2 + (i as usize) % 4].clone(); // plan[0], plan[1] = all, none (case 0 has them); then 2 decline patterns, 2 random masks
+                    let v = Visitor::Masked(k.clone());
+                    rep.eval(); rep.count("reads.masked");
+                    let probs = problems_of_read(&s.bytes, 0, end, &v, &s);
+                    if probs.is_empty() { rep.count("reads.masked.ok"); }
+                    report(&mut rep, "read", &v, &s, probs, &|t: &K| problems_of_read(&s.bytes, 0, end, &Visitor::Masked(t.clone()), &s), json!({"workload": "miri"}));
+                    rep.eval(); rep.count("replays.masked");
+                    let probs = problems_of_replay(&s, &k);
+                    if probs.is_empty() { rep.count("replays.masked.ok"); }
+                    report(&mut rep, "replay", &v, &s, probs, &|t: &K| problems_of_replay(&s, t), json!({"workload": "miri"}));
+                }
+            }
+        } else {
+            let subjects: Vec<Subject> = (0..2).filter_map(|j| slice_subject(&mut rng, i * 2 + j, true).ok()).collect();
+            if subjects.len() == 2 {
+                let mut stream = vec![]; let mut bounds = vec![];
+                for s in &subjects { let a = stream.len() as u64; stream.extend_from_slice(&s.bytes); bounds.push((a, stream.len() as u64)); }
+                classes += 2; bytes_in += stream.len();
+                // a masked read of the second class where it sits in the stream
+                let (s, (a, b)) = (&subjects[1], bounds[1]);
+                let v = Visitor::Masked(K::random(&mut rng));
+                rep.eval(); rep.count("reads.in_stream");
+                let probs = problems_of_read(&stream, a, b, &v, s);
+                let alone = |t: &K| problems_of_read(&s.bytes, 0, s.bytes.len() as u64, &Visitor::Masked(t.clone()), s);
+                let only_in_stream = !probs.is_empty() && v.k().is_some_and(|k| alone(k).is_empty());
+                if only_in_stream { for p in probs.iter().take(2) { rep.violation(format!("C17 stream ({}): only when the class is not at the start of the stream: {}", v.name(), p.key), json!({"stream_hex": hex(&stream), "class_bounds": bounds, "problem": p.detail})); } }
+                else { report(&mut rep, "read", &v, s, probs, &alone, json!({"workload": "miri streams", "class_bounds": bounds})); }
+                // one Vec<ClassFile> visitor carried through both reads on one cursor
+                rep.eval(); rep.count("streams.vec_visitor");
+                let r = guard(|| {
+                    let mut t = Tracked::new(&stream, 0);
+                    let mut v: Vec<ClassFile> = vec![]; let mut pos = vec![];
+                    for _ in 0..subjects.len() { match duke::read_class_multi(&mut t, v) { Ok(nv) => { v = nv; pos.push(t.pos); } Err(e) => return Err((format!("{e:#}"), pos)) } }
+                    Ok((v, pos))
+                });
+                let detail = |x: Value| json!({"stream_hex": hex(&stream), "class_bounds": bounds, "observed": x});
+                match r {
+                    Err(p) => rep.violation(format!("C17 stream (Vec<ClassFile> visitor): panic {}", p.site()), detail(json!(p.message))),
+                    Ok(Err((e, pos))) => rep.violation("C17 stream (Vec<ClassFile> visitor): a successive read fails although every class reads alone", detail(json!({"error": e, "positions_after_reads": pos}))),
+                    Ok(Ok((v, pos))) => {
+                        let want: Vec<u64> = bounds.iter().map(|b| b.1).collect();
+                        if pos != want { rep.violation("C17 stream (Vec<ClassFile> visitor): cursor is not at the end of the class after a successive read", detail(json!({"positions_after_reads": pos, "expected": want}))); }
+                        else if v.len() != subjects.len() { rep.violation("C17 stream (Vec<ClassFile> visitor): k concatenated classes are not delivered one per read", detail(json!({"classes": v.len(), "reads": subjects.len()}))); }
+                        else if let Some(j) = (0..v.len()).find(|j| project::project(&v[*j]) != subjects[*j].full) { rep.violation("C17 stream (Vec<ClassFile> visitor): class delivered by a successive read differs from reading it alone", detail(json!({"read_index": j}))); }
+                        else { rep.count("streams.vec_visitor.ok"); }
+                    }
+                }
+            } else { skipped += 1; }
+        }
+        i += 1;
+    }
+    for v in rep.violations.values() { println!("SLICE-OBSERVATION {} ({}x)", v.signature, v.count); }
+    println!("MIRI-SLICE done cases={} (asked for {}) evaluations={} observations={} classes={} bytes_in={} skipped={} masked_reads={} (ok {}) masked_replays={} (ok {}) simple_reads={} simple_replays={} unit_reads={} replays_into_builder={} (equal {}) stream_reads={} vec_visitor_streams={} (ok {})",
+        i, cases, rep.evaluations, rep.violations.len(), classes, bytes_in, skipped, rep.get("reads.masked"), rep.get("reads.masked.ok"), rep.get("replays.masked"), rep.get("replays.masked.ok"), rep.get("reads.simple"), rep.get("replays.simple"), rep.get("reads.unit"),
+        rep.get("replays.into_builder"), rep.get("replays.into_builder.equal"), rep.get("reads.in_stream"), rep.get("streams.vec_visitor"), rep.get("streams.vec_visitor.ok"));
+    0
+}
+
 fn main() {
+    if let Some((seed, n, max_s)) = common::miri::slice_args() { std::process::exit(miri_slice(seed, n, max_s)); }
     let mut ctx = Ctx::from_args("C17", 40, 480);
     let replay = load_replay(&mut ctx);
     let mut rep = Report::new();
@@ -529,5 +634,14 @@ fn main() {
         meta.oblige("replay into the tree builder was compared", rep.get("replays.into_builder") >= 100);
         meta.oblige("(), SimpleClassVisitor and Vec<ClassFile> visitors were exercised", rep.get("reads.unit") > 0 && rep.get("reads.simple") > 0 && rep.get("streams.vec_visitor") > 0);
     }
+    if replay.is_none() {
+        if ctx.tier == Tier::Thorough {
+            let r = common::miri::run_slice(&ctx, "c17", env!("CARGO_MANIFEST_DIR"), MIRI_CASES, 150, 300);
+            if let Some(line) = r.ub { rep.cur = ("miri".into(), 0); rep.violation(format!("miri: {line}"), json!({"how": format!("cargo +nightly miri run --offline -p c17 -- --miri-slice <seed> {MIRI_CASES} 150"), "seed": ctx.seed as i64, "status": r.status})); }
+            meta.extra.insert("miri_slice".into(), json!(r.status));
+        } else { meta.extra.insert("miri_slice".into(), json!("not run in the quick tier")); }
+    }
     std::process::exit(finish(&ctx, rep, meta));
 }
+/// cases asked of the Miri slice in the thorough tier; it stops by itself after 150 s, checked between cases: one `evaluate_class` case can take 60 s (see NOTES.md)
+const MIRI_CASES: usize = 16;
